@@ -464,3 +464,37 @@ def execution_input_is_a_copy(chk, ctx):
             if isinstance(s, ast.Assign) and any(isinstance(t, ast.Subscript) and const(t.slice) == "Input" and "xecution" in norm(t.value) for t in s.targets) and q != st.qname:
                 n += 1
                 chk.ob("C11.R6", "%s does not rewrite Execution.Input" % q, False, "", key="%s | rewrites Execution.Input" % q, where=se.line(s), message="")
+
+
+# ---------------------------------------------------------------------------------------------------------------------
+# C06.R6 (round 5): every way handle_error disposes of a failed Parallel/Map tears the failed attempt's siblings down
+def failed_fanout_torn_down(chk, ctx):
+    """When a Parallel/Map state fails, handle_error has three outcomes: retry the state, transfer to a Catcher's Next, or fail the
+    execution.  The property demands that the siblings of the failing branch make no further progress in *each* of them: their pending
+    tasks / waits are cancelled and their held events released.  Decided here: each of the three arms reaches the tear-down
+    (check_pending_results, directly under the Parallel/Map test, or through handle_terminal_state -> end_execution's failure path)."""
+    se = ctx.mod("state_engine")
+    he = se.func("StateEngine.notify.handle_error")
+    loops = [n for n in body_nodes(he) if isinstance(n, ast.For)]
+    arms = {}
+    for lp in loops:
+        it = norm(lp.iter)
+        if it in ("retry", "catch"):
+            arms[it] = lp
+    chk.floor("C06.R6", len(arms), 2, "retrier / catcher scans in handle_error")
+    for name, lp in sorted(arms.items()):
+        calls = [c for c in ast.walk(lp) if isinstance(c, ast.Call) and callname(c) == "self.check_pending_results"]
+        guarded = False
+        for c in calls:
+            for i, arm in enclosing_ifs(se, c, he.node):
+                if arm == "body" and "('Parallel', 'Map')" in norm(i.test):
+                    guarded = True
+        what = "retried" if name == "retry" else "caught (transfer to the Catcher's Next)"
+        chk.ob("C06.R6", "handle_error: a failed Parallel/Map that is %s has its siblings torn down" % what, guarded, "",
+               key="StateEngine.notify.handle_error | %s arm leaves the failed fan-out's siblings running and their held events unacknowledged" % name, where=se.line(lp),
+               message="when a Parallel/Map failure is %s nothing cancels the pending tasks / waits of the sibling branches or acknowledges the events they hold: a sibling's late reply is "
+                       "processed after the state (or the execution) has moved on, and held events stay unacknowledged for ever" % what)
+    # the third outcome: no retrier / catcher applies -> handle_terminal_state -> end_execution(failed) -> check_pending_results (C05.R8 confirms that caller)
+    term = [c for c in body_nodes(he) if isinstance(c, ast.Call) and callname(c) == "handle_terminal_state"]
+    chk.ob("C06.R6", "handle_error: an unhandled failure ends the execution through handle_terminal_state", bool(term), "", key="StateEngine.notify.handle_error | no terminal arm", where=he.where(),
+           message="")
